@@ -334,6 +334,102 @@ func checkC20(p *Prog, r *Report) {
 	}
 	p.runPrefixRule(r, "E1.prefixbound", funcs, 4)
 	p.patternReturnRule(r)
+	p.subrepoCarriedRule(r)
+}
+
+// resultLeaves resolves result #idx of a value to the leaves it can come from, following calls into repository
+// functions index-precisely (result idx of the callee's returns, parameters mapped back to the call's arguments).
+// skip(ret) lets the caller ignore some returns of a callee (e.g. its failure returns).
+func resultLeaves(v ssa.Value, depth int, skip func(*ssa.Return) bool) []ssa.Value {
+	var out []ssa.Value
+	seen := map[ssa.Value]bool{}
+	var walk func(v ssa.Value, bind map[*ssa.Parameter]ssa.Value, d int)
+	walk = func(v ssa.Value, bind map[*ssa.Parameter]ssa.Value, d int) {
+		if v == nil || seen[v] {
+			return
+		}
+		seen[v] = true
+		switch x := v.(type) {
+		case *ssa.Phi:
+			for _, e := range x.Edges {
+				walk(e, bind, d)
+			}
+		case *ssa.Parameter:
+			if a, ok := bind[x]; ok {
+				walk(a, nil, d)
+				return
+			}
+			out = append(out, x)
+		case *ssa.Extract:
+			c, ok := x.Tuple.(*ssa.Call)
+			g := (*ssa.Function)(nil)
+			if ok {
+				g = c.Call.StaticCallee()
+			}
+			if g == nil || g.Blocks == nil || d == 0 {
+				out = append(out, x)
+				return
+			}
+			nb := map[*ssa.Parameter]ssa.Value{}
+			for k, prm := range g.Params {
+				if k < len(c.Call.Args) {
+					nb[prm] = c.Call.Args[k]
+				}
+			}
+			for _, ret := range returnsOf(g) {
+				if skip != nil && skip(ret) {
+					continue
+				}
+				if x.Index < len(ret.Results) {
+					walk(unspill(ret.Results[x.Index]), nb, d-1)
+				}
+			}
+		default:
+			out = append(out, v)
+		}
+	}
+	walk(v, nil, depth)
+	return out
+}
+
+// subrepoCarriedRule: a label written with a subrepo prefix keeps that subrepo whatever its package/name part looks like.
+func (p *Prog) subrepoCarriedRule(r *Report) {
+	rule := "E7.subrepo-carried"
+	fn := p.Fn("core", "parseBuildLabelSubrepo")
+	if fn == nil || len(fn.Params) < 1 {
+		r.unresolved(rule, "core.parseBuildLabelSubrepo")
+		return
+	}
+	target := fn.Params[0]
+	failure := func(ret *ssa.Return) bool { // a return whose name result is the constant "" signals an invalid label
+		if len(ret.Results) < 2 {
+			return false
+		}
+		s, ok := constString(unspill(ret.Results[1]))
+		return ok && s == ""
+	}
+	n, bad := 0, 0
+	var site token.Pos
+	for _, ret := range returnsOf(fn) {
+		if failure(ret) || len(ret.Results) < 3 {
+			continue
+		}
+		n++
+		for _, leaf := range resultLeaves(unspill(ret.Results[2]), 2, failure) {
+			ok := false
+			// the subrepo must be (a slice of) the text this function was given
+			for x := range backSlice(leaf, SliceOpts{NoCallArgs: true}) {
+				if x == ssa.Value(target) {
+					ok = true
+				}
+			}
+			if !ok {
+				bad++
+				site = ret.Pos()
+			}
+		}
+	}
+	r.check(n >= 2 && bad == 0, rule, "parseBuildLabelSubrepo returns the subrepo prefix it parsed", p.pos(fn.Pos()), fnName(fn), itoa(n)+" successful returns; the subrepo result is always a slice of the label text", "on some successful path (return at "+p.pos(site)+") the subrepo of a label written as ///sub//pkg... comes from somewhere else than its own prefix (e.g. from a helper that returns \"\" for `//pkg/...`): the printed form of a subrepo wildcard label parses back to a label in the host repo")
 }
 
 // patternReturnRule: path-sensitive rule on the pattern predicates.
@@ -557,6 +653,99 @@ func checkC22(p *Prog, r *Report) {
 		}
 		r.check(found, rule, pr.name+" => SkipDir", p.pos(cb.Pos()), fnName(cb), "a SkipDir-returning path exists under this test", "no path of the walk callback returns filepath.SkipDir under the "+pr.name+" test: the directory would be descended into")
 	}
+	// blacklist / experimental entries are repo-relative: they must be compared with the walked path as the
+	// walker reports it (or with its base name), not with a re-based or otherwise transformed copy
+	rule = "E7.blacklist-operand"
+	{
+		namePrm := cb.Params[0]
+		n, bad := 0, ""
+		eachInstr(cb, false, func(_ *ssa.Function, i ssa.Instruction) {
+			var ops []ssa.Value
+			switch x := i.(type) {
+			case *ssa.BinOp:
+				if x.Op == token.EQL {
+					ops = []ssa.Value{x.X, x.Y}
+				}
+			case *ssa.Call:
+				if isCallTo(x, "strings.HasPrefix") {
+					ops = x.Call.Args
+				}
+			}
+			if len(ops) != 2 {
+				return
+			}
+			for k, o := range ops {
+				isBL := false
+				for _, t := range ps.tags(p, o) {
+					if t == "Config.Parse.BlacklistDirs" {
+						isBL = true
+					}
+				}
+				if !isBL {
+					continue
+				}
+				other := ops[1-k]
+				n++
+				ok := other == ssa.Value(namePrm)
+				if c, isC := other.(*ssa.Call); isC && isCallTo(c, "path/filepath.Base", "path.Base") && c.Call.Args[0] == ssa.Value(namePrm) {
+					ok = true
+				}
+				if !ok {
+					bad = describeValue(other)
+				}
+			}
+		})
+		r.check(n >= 2 && bad == "", rule, "blacklist entries are compared with the walked path itself (or its base name)", p.pos(cb.Pos()), fnName(cb), itoa(n)+" comparisons, each against the callback's path parameter or filepath.Base of it", "a blacklist entry is compared with "+bad+" instead of the repo-relative path the walker reports: when the expansion starts in a sub-directory (//third_party/...), multi-component entries such as third_party/js/node_modules never match")
+	}
+	// a directory is a package exactly when it holds a file whose name equals a configured BUILD file name
+	rule = "E5.build-file-detection"
+	{
+		ibf := p.Fn("core", "Configuration.IsABuildFile")
+		if ibf == nil {
+			r.unresolved(rule, "core.Configuration.IsABuildFile")
+		} else {
+			nT, bad := 0, 0
+			for _, rc := range returnCases(ibf, 0) {
+				b, isC := constBool(rc.Vals[0])
+				if isC && !b {
+					continue
+				}
+				nT++
+				exact := false
+				for _, f := range rc.Facts {
+					if bo, ok := f.V.(*ssa.BinOp); ok && bo.Op == token.EQL && f.Val {
+						tx, ty := tagsOf(bo.X, SliceOpts{}), tagsOf(bo.Y, SliceOpts{})
+						if (bo.X == ssa.Value(ibf.Params[1]) && hasSuffixKey(ty, ".BuildFileName")) || (bo.Y == ssa.Value(ibf.Params[1]) && hasSuffixKey(tx, ".BuildFileName")) {
+							exact = true
+						}
+					}
+				}
+				if !exact {
+					bad++
+				}
+			}
+			r.check(nT > 0 && bad == 0, rule, "IsABuildFile is exact string equality with a configured name", p.pos(ibf.Pos()), fnName(ibf), "true only on `name == buildFileName`", "IsABuildFile accepts names that merely resemble a configured BUILD file name (case-insensitive / prefix / pattern match): a directory holding `build` or `Build.plz` is expanded as a package")
+			// and the walker uses it on the base name of non-directories
+			used := false
+			eachInstr(cb, false, func(_ *ssa.Function, i ssa.Instruction) {
+				if c, ok := i.(*ssa.Call); ok && callsFn(c, ibf) {
+					if bc, ok := c.Call.Args[1].(*ssa.Call); ok && isCallTo(bc, "path/filepath.Base") {
+						used = true
+					}
+				}
+			})
+			r.check(used, rule, "the walker tests the base name with IsABuildFile", p.pos(cb.Pos()), fnName(cb), "config.IsABuildFile(filepath.Base(name))", "the walker no longer recognises BUILD files through Configuration.IsABuildFile on the base name")
+		}
+	}
+}
+
+func hasSuffixKey(t map[string]bool, suffix string) bool {
+	for k := range t {
+		if strings.HasSuffix(k, suffix) {
+			return true
+		}
+	}
+	return false
 }
 
 func itoa(n int) string {
